@@ -31,7 +31,7 @@ def shards(tier):
 
 STARTS = ["0", "2.5", "4.95", "5.95", "-0.05", "-125.4", "-180", "-90", "165.7", "31.5", "0.001", "359.9", "3.95",
           "-34.85", "-47.95", "5.0", "1.05", "-0.5", "100.25", "-179.975", "12.3", "-7.7", "0.3", "6.0", "4.0"]
-STEPS = ["0.1", "0.05", "0.2", "0.25", "0.5", "1", "0.01", "0.025", "0.3"]
+STEPS = ["0.1", "0.05", "0.2", "0.25", "0.5", "1", "0.01", "0.025", "0.3", "2", "5", "10", "2.5"]
 # "awkward" grids: first edge small compared with the step, step not a short binary fraction (0.1/0.3, -0.05/0.15, 0.06/0.01 ...)
 ODD_STARTS = ["0.1", "-0.05", "0.2", "0.06", "0.12", "0.15", "0.3", "0.7", "1.1", "0.05", "-0.1", "0.01"]
 ODD_STEPS = ["0.3", "0.15", "0.6", "0.7", "0.9", "0.35", "0.45", "0.01", "0.02", "0.03", "0.07", "1.3"]
